@@ -660,7 +660,8 @@ Proof.
   - destruct (h_nb h <=? b); [rel_ns|]. destruct rej; [rel_ns|].
     destruct (register h c cn b KClient u) as [h1 o1] eqn:Hr. cbn [fst]. rewrite (fst_eq _ _ _ Hr). apply rel_register.
   - destruct (v2_check (h_nb h) b t); [apply rel_register|rel_ns].
-  - destruct (throttled h (c_addr cn) ACT_INTERNAL); [rel_ns|].
+  - destruct (N.eqb tok 4); [rel_ns|].
+    destruct (throttled h (c_addr cn) ACT_INTERNAL); [rel_ns|].
     destruct (negb (N.eqb tok 0)); [rel_ns|]. destruct (h_nb h <=? b); [rel_ns|]. apply rel_register.
   - destruct (throttled h (c_addr cn) ACT_RESUME); [apply rel_refl|].
     destruct i as [n|n|k|n]; try rel_ns.
